@@ -49,7 +49,7 @@ def run_plain(job):
     from . import drivers
 
     np.random.seed(job["seed"])
-    out = {"job": job, "raised": None, "all_inf_batch": False}
+    out = {"job": job, "raised": None, "raised_site": None, "all_inf_batch": False}
     s = None
     try:
         s, c = drivers.build_sampler(job["conf"], None, out_dir=None)
@@ -59,12 +59,23 @@ def run_plain(job):
         out.update(summarize(s))
     except Exception as ex:
         out["raised"] = repr(ex)
+        out["raised_site"] = psrun.raise_site(ex) + ":" + type(ex).__name__
         try:  # the known all-zero-likelihood prior batch (C11 finding) makes everything downstream NaN
             out["all_inf_batch"] = any(not np.any(np.isfinite(b)) for b in s.state._history["logl"])
         except Exception:
             pass
         out.update({"iters": [], "weights": [], "evidence": float("nan")})
     return out
+
+
+def out_of_scope(r):
+    """A run that died of a defect recorded under ANOTHER property (known findings of C11 / C14) says nothing about the
+    relation a pair check decides: such pairs are discarded and counted."""
+    if r.get("all_inf_batch"):
+        return "all-inf-prior-batch (C11 known finding)"
+    if (r.get("raised_site") or "").startswith("student.fit_mvstud:LinAlgError"):
+        return "degenerate cluster: singular scale in fit_mvstud (C14 known finding)"
+    return None
 
 
 def run_twice(job):
